@@ -288,11 +288,15 @@ def rat_cases(draw):
     off = draw(st.integers(0, 3)) == 0
     fr = st.sampled_from([0.0, 0.25, -0.25, 0.4, -0.4]) if off else st.just(0.0)
     ivs = []
+    fracs = {}
+    for c in cuts:  # one offset per distinct cut, so that touching intervals stay disjoint
+        if c not in fracs:
+            fracs[c] = draw(fr)
     for i in range(k):
         a, b = cuts[2 * i], cuts[2 * i + 1]
         if a == b:
             continue
-        ivs.append([[a, draw(fr)], [b, draw(fr)]])
+        ivs.append([[a, fracs[a]], [b, fracs[b]]])
     mode = draw(st.sampled_from(["keep", "delete", "keep", "delete", "both"]))
     if mode in ("keep", "both") and not ivs:
         mode = "delete"
